@@ -52,6 +52,8 @@ struct Workload {
     pool_threads: usize,
     max_jobs: usize,
     polls_switch: bool,
+    /// use ThreadPool::Global (rayon's global pool, here with `pool_threads` threads)
+    global: bool,
 }
 
 fn img_obs(bytes: &[u8]) -> Vec<u64> {
@@ -89,6 +91,7 @@ fn render2d<F: Backend + RenderHints>(w: u32, h: u32, tile: usize) -> Workload {
         pool_threads: 4,
         max_jobs: 4,
         polls_switch: true,
+        global: false,
     }
 }
 
@@ -106,6 +109,33 @@ fn render3d<F: Backend + RenderHints>(w: u32, h: u32, d: u32, tile: usize) -> Wo
         pool_threads: 4,
         max_jobs: 4,
         polls_switch: true,
+        global: false,
+    }
+}
+
+/// Post-processing effects on a 3D render (row-parallel `apply_effect`):
+/// denoise_normals followed by apply_shading without SSAO (SSAO draws its
+/// kernel from an unseeded RNG and is not comparable between runs)
+fn effects() -> Workload {
+    let scene = &scene::scenes_3d()[5];
+    let shape = build_shape::<VmFunction>(&scene.prog);
+    let vars = ShapeVars::<f32>::new();
+    let cfg = fidget_raster::voxel::RenderConfig { image_size: VoxelSize::new(12, 6, 8), world_to_model: nalgebra::Matrix4::identity() };
+    let ecfg = fidget_raster::voxel::EvalConfig { tile_sizes: Some(TileSizes::new(&[4]).unwrap()), threads: None, cancel: CancelToken::new() };
+    let img = fidget_raster::voxel::render(shape.bind(&vars).unwrap(), &cfg, &ecfg).expect("render");
+    Workload {
+        name: "effects: denoise_normals + apply_shading (no SSAO) on a 12x6 geometry image".into(),
+        run: Box::new(move |pool, _| {
+            let d = fidget_raster::effects::denoise_normals(&img, pool);
+            let c = fidget_raster::effects::apply_shading(&d, false, pool);
+            let mut out = img_obs(d.as_bytes());
+            out.extend(c.iter().map(|p| (p[0] as u64) << 16 | (p[1] as u64) << 8 | p[2] as u64));
+            Some(out)
+        }),
+        pool_threads: 4,
+        max_jobs: 3,
+        polls_switch: true,
+        global: false,
     }
 }
 
@@ -144,6 +174,7 @@ fn mesh<F: Backend + RenderHints>(depth: u8, pool_threads: usize, max_jobs: usiz
         pool_threads,
         max_jobs,
         polls_switch: false,
+        global: false,
     }
 }
 
@@ -157,7 +188,12 @@ fn run_once(w: &Workload, prefix: &[usize], with_pool: bool, arm_cancel: bool) -
     let cancel = CancelToken::new();
     let c2 = cancel.clone();
     let env: Option<Arc<dyn Fn() + Send + Sync>> = if arm_cancel { Some(Arc::new(move || c2.cancel())) } else { None };
-    let pool = ThreadPool::Custom(rayon::ThreadPoolBuilder::new().num_threads(w.pool_threads).build().unwrap());
+    let pool = if w.global {
+        sched::set_global_threads(w.pool_threads);
+        ThreadPool::Global
+    } else {
+        ThreadPool::Custom(rayon::ThreadPoolBuilder::new().num_threads(w.pool_threads).build().unwrap())
+    };
     sched::begin(prefix.to_vec(), env, w.max_jobs);
     let obs = guard(|| (w.run)(if with_pool { Some(&pool) } else { None }, &cancel));
     let trace = sched::end();
@@ -364,7 +400,7 @@ fn explore(cx: &mut Cx, sub: &mut u64, w: &Workload, with_pool: bool, arm_cancel
                 }
             }
         }
-        if s % 199 == 0 {
+        if s % 4999 == 0 {
             cx.sample(desc);
         }
         push_children(&mut heap, &mut seq, &prefix, &x.trace, bound);
@@ -377,6 +413,12 @@ fn explore(cx: &mut Cx, sub: &mut u64, w: &Workload, with_pool: bool, arm_cancel
     } else {
         cx.add("workloads_not_fully_explored_even_without_preemptions", 1);
     }
+    // per-workload record in the evidence (maxima): schedules explored and the
+    // preemption bound that was explored completely, plus one (0 = not even
+    // the non-preemptive schedules were completed)
+    let tag = format!("{}{}{}", w.name, if with_pool { "" } else { " [no pool]" }, if arm_cancel { " [cancel armed]" } else { "" });
+    cx.max(&format!("workload: {tag} :: schedules"), runs.min(cap));
+    cx.max(&format!("workload: {tag} :: complete_bound_plus_1"), (completed + 1) as u64);
     cx.max("distinct_outcomes_in_a_workload", outcomes.len() as u64);
     if arm_cancel && outcomes.len() < 2 && runs > 3 {
         cx.add("vacuous_cancel_workloads", 1);
@@ -435,6 +477,7 @@ fn shared_tape<F: Backend>() -> Workload {
         pool_threads: 3,
         max_jobs: 3,
         polls_switch: true,
+        global: false,
     }
 }
 
@@ -460,6 +503,10 @@ fn shared_tape_unit<F: Backend>(cx: &mut Cx, sub: &mut u64, bound: usize, cap: u
     sched::set_mode(Mode::Sequential);
 }
 
+fn bound_for_mesh(tier: Tier) -> usize {
+    if tier == Tier::Quick { 1 } else { 2 }
+}
+
 #[derive(Clone, Debug)]
 enum Unit {
     Render2 { jit: bool, tiles: u32, cancel: bool },
@@ -467,6 +514,9 @@ enum Unit {
     Mesh { jit: bool, depth: u8, pool: usize, cancel: bool },
     NoPool { kind: u8 },
     SharedTape { jit: bool },
+    Effects,
+    /// the same workloads through ThreadPool::Global
+    Global { kind: u8, cancel: bool },
 }
 
 fn units(tier: Tier) -> Vec<Unit> {
@@ -479,16 +529,21 @@ fn units(tier: Tier) -> Vec<Unit> {
         v.push(Unit::Render2 { jit: true, tiles: 3, cancel });
         v.push(Unit::Render3 { jit: true, tiles: 2, cancel });
     }
-    let pools: Vec<usize> = match tier {
-        Tier::Quick => vec![1, 2, 16],
-        Tier::Thorough => (1..=16).collect(),
+    // The pool size reaches the mesher only through
+    // target_count = min(8^depth, 10 * thread_count) (octree.rs), i.e. through
+    // the pre-split: depth 1 always gives 8 tasks; depth 2 gives 15, 22, 36,
+    // 43, 50 tasks for n = 1..5 and 64 for every n >= 6; depth 3 gives a
+    // different split for most n.  One representative per class is explored.
+    let mesh_cfgs: Vec<(u8, usize)> = match tier {
+        Tier::Quick => vec![(0, 1), (0, 16), (1, 1), (1, 16), (2, 1), (2, 2)],
+        Tier::Thorough => vec![(0, 1), (0, 16), (1, 1), (1, 16), (2, 1), (2, 2), (2, 3), (2, 4), (2, 5), (2, 6), (2, 16), (3, 1), (3, 7)],
     };
-    for pool in pools {
+    for (depth, pool) in mesh_cfgs {
         for cancel in [false, true] {
-            v.push(Unit::Mesh { jit: false, depth: 1, pool, cancel });
-            if tier == Tier::Thorough || pool <= 2 {
-                v.push(Unit::Mesh { jit: false, depth: 2, pool, cancel });
+            if depth == 3 && cancel {
+                continue;
             }
+            v.push(Unit::Mesh { jit: false, depth, pool, cancel });
         }
     }
     v.push(Unit::Mesh { jit: true, depth: 2, pool: 1, cancel: true });
@@ -497,6 +552,12 @@ fn units(tier: Tier) -> Vec<Unit> {
     }
     v.push(Unit::SharedTape { jit: false });
     v.push(Unit::SharedTape { jit: true });
+    v.push(Unit::Effects);
+    for kind in 0..3 {
+        for cancel in [false, true] {
+            v.push(Unit::Global { kind, cancel });
+        }
+    }
     v
 }
 
@@ -512,10 +573,10 @@ impl Check for C09 {
     }
     fn meta(&self, tier: Tier) -> Meta {
         Meta {
-            rule: "case = one complete execution of a real workload under a recorded schedule; the rayon stand-in resolves every decision from the schedule: (1) how the task list is cut into contiguous jobs (every composition up to max_jobs; map_init's init runs once per job), (2) which runnable job holds the baton at each scheduling point - parallel-op start, job end, and the verif-hooks points at the start of each raster root-tile task, each tile-recursion entry and each octree task (raster: also each cancellation poll) - explored by stateless re-execution in order of increasing preemption count up to the bound, (3) the environment's single step CancelToken::cancel(), offered at every scheduling point and at EVERY cancellation poll (per octree cell, per tile) until it has fired; workloads: 2D render with 2, 3, 4 root tiles, 3D render with 2, 3, 4 root tiles, octree meshing at depth 1 and 2 for pool sizes (quick 1, 2, 16; thorough every n in 1..=16, which changes the pre-split), VM (+ JIT on one workload per kind), plus the no-pool paths (cancel at every poll); oracles: never cancelled => Some(r) with r equal to the sequential no-pool result (images bitwise, meshes as sorted multisets of rotation-normalised triangles over vertex bit patterns); cancelled => None or exactly the full result, and None when the token is set at the first opportunity; one schedule per workload is replayed twice and must reproduce trace and observation; a prefix that diverges is a machinery error; shared tapes: 3 controlled threads x 2 rounds of point / interval / float-slice / grad-slice evaluation through handles onto one set of tapes, with a scheduling point before each round's tracing evaluations and before its bulk evaluations (4 per thread), explored like the other workloads, each thread's results equal to its solo results; labelled sampling supplement: the same bodies on free-running OS threads (200 rounds) - reported under its own counter, not deciding".into(),
+            rule: "case = one complete execution of a real workload under a recorded schedule; the rayon stand-in resolves every decision from the schedule: (1) how the task list is cut into contiguous jobs (every composition up to max_jobs; map_init's init runs once per job), (2) which runnable job holds the baton at each scheduling point - parallel-op start, job end, and the verif-hooks points at the start of each raster root-tile task, each tile-recursion entry and each octree task (raster: also each cancellation poll) - explored by stateless re-execution in order of increasing preemption count up to the bound, (3) the environment's single step CancelToken::cancel(), offered at every scheduling point and at EVERY cancellation poll (per octree cell, per tile) until it has fired; workloads: 2D render with 2, 3, 4 root tiles, 3D render with 2, 3, 4 root tiles, octree meshing for one pool size per pre-split class (the pool size reaches the mesher only through target_count = min(8^depth, 10*threads): depth 0 -> the root cell alone; depth 1 -> 8 tasks for every n; depth 2 -> 15, 22, 36, 43, 50 tasks for n = 1..5 and 64 for n >= 6; quick: depths 0 and 1 n in {1,16}, depth 2 n in {1,2}; thorough: depth 2 n in {1..6,16} and depth 3 n in {1,7}), VM (+ JIT on one workload per kind), plus the no-pool paths (cancel at every poll), ThreadPool::Global (one workload per kind), and the row-parallel post-processing effects denoise_normals + apply_shading (6 rows cut into <= 3 jobs; SSAO excluded: unseeded RNG); oracles: never cancelled => Some(r) with r equal to the sequential no-pool result (images bitwise, meshes as sorted multisets of rotation-normalised triangles over vertex bit patterns); cancelled => None or exactly the full result, and None when the token is set at the first opportunity; one schedule per workload is replayed twice and must reproduce trace and observation; a prefix that diverges is a machinery error; shared tapes: 3 controlled threads x 2 rounds of point / interval / float-slice / grad-slice evaluation through handles onto one set of tapes, with a scheduling point before each round's tracing evaluations and before its bulk evaluations (4 per thread), explored like the other workloads, each thread's results equal to its solo results; labelled sampling supplement: the same bodies on free-running OS threads (200 rounds) - reported under its own counter, not deciding".into(),
             bounds: match tier {
                 Tier::Quick => "preemption bound 2 (raster, shared tape), 1 (mesh); schedules are explored in order of increasing preemption count and capped at 12000 per workload: a workload that hits the cap is fully explored only up to the bound recorded in the counters workloads_fully_explored_to_preemption_bound_<k>".into(),
-                Tier::Thorough => "preemption bound 2 (raster, mesh), 3 (shared tape); schedules are explored in order of increasing preemption count and capped at 250000 per workload: a workload that hits the cap is fully explored only up to the bound recorded in the counters workloads_fully_explored_to_preemption_bound_<k>".into(),
+                Tier::Thorough => "preemption bound 2 (raster, mesh), 3 (shared tape); schedules are explored in order of increasing preemption count and capped at 100000 per workload: a workload that hits the cap is fully explored only up to the bound recorded in the counters workloads_fully_explored_to_preemption_bound_<k>".into(),
             },
             assumptions: vec![
                 "the cooperative scheduler interleaves at instrumented points only (sequentially consistent hand-offs); data races inside an evaluator call and weak-memory effects on the Relaxed cancel flag are outside it (DESIGN.md §6)".into(),
@@ -530,7 +591,7 @@ impl Check for C09 {
     }
     fn run_unit(&self, tier: Tier, unit: usize, cx: &mut Cx) {
         let mut sub = 0u64;
-        let cap = if tier == Tier::Quick { 12000 } else { 250000 };
+        let cap = if tier == Tier::Quick { 12000 } else { 100000 };
         match units(tier)[unit].clone() {
             Unit::Render2 { jit, tiles, cancel } => {
                 let (w, h) = (8 * tiles.min(2), if tiles > 2 { 8 * (tiles - 1).min(2) } else { 8 });
@@ -546,8 +607,8 @@ impl Check for C09 {
             }
             Unit::Mesh { jit, depth, pool, cancel } => {
                 let max_jobs = if depth == 1 && !cancel { 3 } else { 2 };
+                let bound = if depth == 3 { 1 } else { bound_for_mesh(tier) };
                 let wl = if jit { mesh::<JitFunction>(depth, pool, max_jobs) } else { mesh::<VmFunction>(depth, pool, max_jobs) };
-                let bound = if tier == Tier::Quick { 1 } else { 2 };
                 explore(cx, &mut sub, &wl, true, cancel, bound, cap);
             }
             Unit::NoPool { kind } => {
@@ -557,6 +618,19 @@ impl Check for C09 {
                     _ => mesh::<VmFunction>(2, 1, 1),
                 };
                 explore(cx, &mut sub, &wl, false, true, 0, cap);
+            }
+            Unit::Global { kind, cancel } => {
+                let mut wl = match kind {
+                    0 => render2d::<VmFunction>(24, 8, 8),
+                    1 => render3d::<VmFunction>(12, 4, 8, 4),
+                    _ => mesh::<VmFunction>(2, 5, 2),
+                };
+                wl.global = true;
+                wl.name = format!("{} (ThreadPool::Global)", wl.name);
+                explore(cx, &mut sub, &wl, true, cancel, if kind == 2 && tier == Tier::Quick { 1 } else { 2 }, cap);
+            }
+            Unit::Effects => {
+                explore(cx, &mut sub, &effects(), true, false, 2, cap);
             }
             Unit::SharedTape { jit } => {
                 let bound = if tier == Tier::Quick { 2 } else { 3 };
